@@ -442,10 +442,13 @@ impl RefDbg {
     fn resume(&mut self, mode: RefCmd) {
         if ref_halt(self.m.mem[self.m.pc as usize]) { return; }          // refused while sitting on HALT
         let return_addr = self.m.pc.wrapping_add(1);
-        // `step`: the next instruction, or the WHOLE subroutine when it is a call (until the matching return has brought
-        // control to the following address: calls and returns in between are counted)
+        // `step`: the next instruction, or the WHOLE subroutine when it is a call: the stepped call instruction may run again in
+        // deeper activations (recursion through the same call site) — each run opens an invocation, each transfer of control
+        // (RET, RETS, JMP through any register, a call) to the following address closes one; the step ends with the last one
+        let call_addr = self.m.pc;
         let over_call = mode == RefCmd::Step && ref_call(self.m.mem[self.m.pc as usize]);
-        let mut depth = 0i64;
+        let mut open = 0u64;
+        let mut by_jump = false;
         let mut left = if let RefCmd::StepInto(k) = mode { k.max(1) as u32 } else { 0 };
         let mut first = true;
         loop {
@@ -454,14 +457,16 @@ impl RefDbg {
             let w = self.m.mem[pc as usize];
             if !first && self.bps.contains(&pc) { return; }
             if ref_halt(w) { return; }
-            if over_call && !first && pc == return_addr && depth == 0 { return; }
+            if over_call && !first && pc == return_addr && by_jump { open = open.saturating_sub(1); if open == 0 { return; } }
+            if over_call && pc == call_addr && ref_call(w) { open += 1; }
+            by_jump = w >> 12 == 0xC || ref_call(w) || ref_return(w);
             first = false;
             self.m.pc = pc.wrapping_add(1);
             self.m.execute(w);
             match mode {
                 RefCmd::StepInto(_) => { left -= 1; if left == 0 { return; } }
                 RefCmd::StepOut => if ref_return(w) { return; },
-                RefCmd::Step => { if !over_call { return; } if ref_call(w) { depth += 1; } else if ref_return(w) && depth > 0 { depth -= 1; } }
+                RefCmd::Step => if !over_call { return; },
                 _ => (),
             }
         }
@@ -493,8 +498,14 @@ const Q2: &str = "and r0,r0,#0\nadd r0,r0,#2\nst r7, save\nloop jsr sub\nadd r0,
 const Q3: &str = ".orig x3000\nld r6, sp\nand r0, r0, #0\nadd r0, r0, #3\njsr f\nadd r5, r5, #1\nhalt\nf add r6, r6, #-1\nstr r7, r6, #0\nadd r0, r0, #-1\nbrnz fdone\njsr f\nadd r1, r1, #1\nfdone ldr r7, r6, #0\nadd r6, r6, #1\nret\nsp .fill xf000\n";
 const Q4: &str = ".orig x3000\nand r0, r0, #0\nadd r0, r0, #3\ncall f\nhalt\nf push r0\nadd r1, r1, r0\nadd r0, r0, #-1\nbrnz fe\ncall f\nfe pop r0\nrets\n";
 
-/// C10 / C11 / C16 over whole sessions against the reference debugger: 4 programs (Q1 with `-f stack`, Q2 without, Q3 / Q4
-/// recursive in the JSR/RET and the CALL/RETS convention) x EVERY
+/// callees that come back to the following address without balancing their own calls and returns: return through another
+/// register, a JSR used only to read the PC, a non-local exit from a nested callee; and a recursive routine whose recursive
+/// call is conditional (the following address is also reached by a branch, one activation deeper)
+const Q5: &str = ".orig x3000\nand r0,r0,#0\njsr sub\nadd r0,r0,#1\njsr idiom\nadd r0,r0,#2\njsr f\nadd r0,r0,#4\nhalt\nsub add r6,r7,#0\nadd r1,r1,#1\njmp r6\nidiom st r7, save\njsr here\nhere add r1,r7,#0\nld r7, save\nret\nf st r7, save\njsr g\nld r7, save\nret\ng ld r7, save\nret\nsave .fill x0\n";
+const Q6: &str = ".orig x3000\nld r6, sp\nand r0,r0,#0\nadd r0,r0,#3\njsr f\nhalt\nf add r6,r6,#-1\nstr r7,r6,#0\nadd r1,r1,#1\nadd r0,r0,#-1\nbrz skip\njsr f\nskip add r2,r2,#1\nldr r7,r6,#0\nadd r6,r6,#1\nret\nsp .fill xf000\n";
+
+/// C10 / C11 / C16 over whole sessions against the reference debugger: 6 programs (Q1 with `-f stack`, Q2 without, Q3 / Q4
+/// recursive in the JSR/RET and the CALL/RETS convention, Q5 / Q6 callees with unbalanced calls and returns) x EVERY
 /// sequence of <= 4 commands over 11 commands { step, step into 1, step into 3, step into 0, step out, continue, break add A,
 /// break remove A, break remove B (the .break), goto C, reset } followed by `exit`: the paused machine AND the breakpoint list
 /// equal the reference's; every session terminates
@@ -504,7 +515,8 @@ fn verif_native_session_reference() {
     let mut evaluated = 0u64;
     // (program, -f stack, A = address for break add/remove, B = a second address to remove (the .break where there is one), C = goto target)
     for (prog, stack, a, b, c) in [(Q1, true, 0x3008u16, 0x3003u16, 0x3005u16), (Q2, false, 0x300Bu16, 0x3006u16, 0x3003u16),
-            (Q3, false, 0x300Au16, 0x300Bu16, 0x3003u16), (Q4, true, 0x3008u16, 0x3009u16, 0x3002u16)] {
+            (Q3, false, 0x300Au16, 0x300Bu16, 0x3003u16), (Q4, true, 0x3008u16, 0x3009u16, 0x3002u16),
+            (Q5, false, 0x300Au16, 0x3011u16, 0x3003u16), (Q6, false, 0x300Au16, 0x300Bu16, 0x3001u16)] {
         let cmds = [RefCmd::Step, RefCmd::StepInto(1), RefCmd::StepInto(3), RefCmd::StepInto(0), RefCmd::StepOut, RefCmd::Continue,
             RefCmd::BreakAdd(a), RefCmd::BreakRemove(a), RefCmd::BreakRemove(b), RefCmd::Goto(c), RefCmd::Reset];
         let n = cmds.len();
